@@ -259,7 +259,8 @@ impl TypeVisitor for V05<'_> {
                             wit(&bad, json!({"family": label})));
                     } else {
                         if accepted > 0 {
-                            ctx.count("soundness_flukes");
+                            let class = label.split('@').next().unwrap().split("-vs-").next().unwrap().trim_end_matches(|c: char| c.is_ascii_digit() || c == '-').to_string();
+                            ctx.sporadic(64, format!("{k}|soundness|{class}"), wit(&bad, json!({"family": label, "accepted": accepted})));
                         }
                         if trials > 0 {
                             ctx.count("invalid_rejected");
